@@ -5,3 +5,4 @@ pub mod refimpl;
 #[global_allocator]
 static ALLOC: engine::guard::CountingAlloc = engine::guard::CountingAlloc;
 pub mod gen;
+pub mod fuzzapi;
